@@ -520,6 +520,82 @@ theorem br_waits_only_for_wakeable (br : BR) (wl : Option Workload) (o : StepOut
           rw [if_neg (by intro hh; exact hnd hh.1)]; rfl
 
 
+/-- **`br_status_write_requeues`** — for every BatchRelease and workload state: a reconcile that rewrites the status
+    (which by `br_status_only_silent` does not bring the reconciler back) also returns a requeue or an error — except the one
+    write that needs no further round, Finalizing → Completed. -/
+theorem br_status_write_requeues (br : BR) (wl : Option Workload) (o : StepOut) (b' : BR) (h : reconcile br wl = .val o)
+    (hb : o.br = some b') (hw : b'.status ≠ br.status) :
+    o.requeue = true ∨ o.err = true ∨ (b'.status.phase = .completed ∧ br.status.phase ≠ .completed) := by
+  unfold reconcile at h
+  split at h
+  · injection h with h; subst h; cases hb
+  · unfold reconcileBody at h
+    simp only at h
+    split at h
+    · injection h with h
+      subst h
+      simp only [Option.some.injEq] at hb
+      subst hb
+      left
+      simp only [decide_eq_true_eq]
+      exact hw
+    · rename_i hnstop
+      have hsame : (syncStatus (withFinalizer br) (initializedStatus (withFinalizer br).status) wl).status = br.status := by
+        unfold syncStatus at hnstop ⊢
+        simp only [Bool.or_eq_true, decide_eq_true_eq, not_or, Decidable.not_not] at hnstop
+        exact hnstop.2
+      have hnc : br.status.phase ≠ .completed := by
+        intro hc
+        apply hnstop
+        unfold syncStatus syncDecide
+        simp [hc, withFinalizer]
+      rw [hsame] at h
+      cases hx : execute (withFinalizer br) br.status wl with
+      | panic => rw [hx] at h; cases h
+      | val t =>
+        obtain ⟨ns', wl', rq, er⟩ := t
+        rw [hx] at h
+        injection h with h
+        subst h
+        simp only [Option.some.injEq] at hb
+        subst hb
+        simp only at hw ⊢
+        cases rq
+        · cases er
+          · rcases execute_quiet (withFinalizer br) br.status ns' wl wl' hnc hx with ⟨h1, _⟩ | hcompl
+            · exact absurd h1 hw
+            · exact Or.inr (Or.inr ⟨hcompl, hnc⟩)
+          · exact Or.inr (Or.inl rfl)
+        · exact Or.inl rfl
+
+/-- **`br_update_wakes_rollout` (step)** — for every BatchRelease and workload state: every status write of the
+    executor is an Update event of the BatchRelease, which the Rollout controller's handler maps to the Rollout of the same
+    name (`br_event_rollout`). -/
+theorem br_update_wakes_rollout (br : BR) (wl : Option Workload) (o : StepOut) (b' : BR)
+    (hb : o.br = some b') (hw : b'.status ≠ br.status) : (brWakes br wl o).ro = true := by
+  unfold brWakes wakesOf
+  simp only [Bool.false_and, Bool.false_or, List.any_eq_true]
+  refine ⟨.brStatusUpdated br.deleting, ?_, rfl⟩
+  unfold brStepEvents
+  rw [hb]
+  simp [hw]
+
+/-! non-vacuity of Part B: a release whose second batch is Ready and partitioned rests (class `specChange`);
+    the same release one batch earlier does not rest -/
+def exBR : BR :=
+  { batches := [.pct 20, .pct 50, .pct 100], partition := some 1, failureThreshold := none, deleting := false, hasFinalizer := true,
+    rollbackAnno := false,
+    status := { phase := .progressing, currentBatch := 1, batchState := .ready, hasReadyTime := true, hash := .same, rolloutIDSame := true,
+                observedReplicas := 10, updateRevision := "v2", stableRevision := "v1", noNeedUpdate := none, updated := 5, updatedReady := 5 } }
+def exWL : Workload :=
+  { replicas := 10, generation := 3, observedGeneration := 3, statusReplicas := 10, updated := 5, updatedReady := 5, updateRevision := "v2",
+    currentRevision := "v1", partition := some (.pct 50), paused := false, owner := .this }
+
+example : brAwaits exBR (some exWL) = some .specChange := by decide
+example : ∃ o, reconcile exBR (some exWL) = .val o ∧ (brWakes exBR (some exWL) o).br = false ∧ brRestsOk o = true := by
+  refine ⟨{ br := some exBR, wl := some exWL, requeue := false, err := false }, by rfl, by decide, by decide⟩
+example : brAwaits { exBR with partition := some 2 } (some exWL) = none := by decide
+
 end executor
 
 /-! ## Part C — the Rollout reconcile -/
@@ -752,6 +828,214 @@ theorem ro_waits_only_for_wakeable (w : World) (r : StepResult) (h : reconcile w
               right; unfold roIllFormed; simp [hph, hreason]
 
 
+/-- the contrapositive: outside the waiting classes a reconcile always wakes itself (or the rollout is gone) -/
+theorem ro_not_waiting_wakes_itself (w : World) (r : StepResult) (h : reconcile w = .val r)
+    (hc : roAwaits w = none) (hwf : roIllFormed w = false) : (roWakes w r).ro = true ∨ r.roGone = true := by
+  cases hq : (roWakes w r).ro
+  · right
+    have := ro_waits_only_for_wakeable w r h hq
+    unfold roRestsOk roStepOk at this
+    simpa [hc, hwf] using this
+  · left; rfl
+
+/-- the clean-up situations: the Rollout waits, among other things, for its BatchRelease to be resumed and deleted -/
+def cleaningUp (w : World) : Bool :=
+  (w.ro.phase = .progressing && (w.ro.reason = .finalising || w.ro.reason = .cancelling)) ||
+  (w.ro.phase = .terminating && w.ro.term = .inTerminating && w.ro.deleting) || w.ro.phase = .disabling
+
+/-- **BatchRelease deletion is no event for the Rollout** (`br_event_rollout`: Delete reaches nobody) — so while it
+    cleans up (which includes waiting for the BatchRelease to vanish) every reconcile of every world wakes itself:
+    by a requeue, an error retry, or a change of its own status. -/
+theorem cleanup_never_rests (w : World) (r : StepResult) (h : reconcile w = .val r) (hc : cleaningUp w = true) :
+    (roWakes w r).ro = true ∨ r.roGone = true := by
+  apply ro_not_waiting_wakes_itself w r h
+  · unfold cleaningUp at hc
+    simp only [Bool.or_eq_true, Bool.and_eq_true, decide_eq_true_eq] at hc
+    unfold roAwaits
+    rcases hc with (⟨hp, hr⟩ | ⟨⟨hp, ht⟩, _⟩) | hp
+    · rcases hr with hr | hr <;> simp [hp, hr]
+    · simp [hp, ht]
+    · simp [hp]
+  · unfold cleaningUp at hc
+    simp only [Bool.or_eq_true, Bool.and_eq_true, decide_eq_true_eq] at hc
+    unfold roIllFormed
+    rcases hc with (⟨hp, hr⟩ | ⟨⟨hp, ht⟩, hd⟩) | hp
+    · rcases hr with hr | hr <;> simp [hp, hr]
+    · simp [hp, hd]
+    · simp [hp]
+
+/-- `removeBatchRelease` reports "retry" exactly as long as the object exists (it never reports done on the strength of
+    having issued the Delete) -/
+theorem removeBatchRelease_waits (br : Option BR) : (removeBatchRelease br).1 = br.isSome := by
+  unfold removeBatchRelease
+  cases br with
+  | none => rfl
+  | some b => simp only [Option.isSome_some]; split <;> rfl
+
+/-- the clean-up task `ReleaseWorkloadControl` is not done, and not failed, while the BatchRelease exists:
+    `doFinalising` reports "not done" — which every caller turns into a requeue -/
+theorem doFinalising_release_waits (c : Ctx) (reason : Reason) (wr : Bool) (hcur : c.sub.finStep = .releaseWorkloadControl)
+    (hbr : c.br.isSome = true) (hsteps : c.ro.steps ≠ []) : ∃ c', doFinalising c reason wr = some (c', false, false) := by
+  have hs := stripAnno_frame c
+  have hbr' : (stripAnno c).br = c.br := by unfold stripAnno; split <;> rfl
+  unfold doFinalising
+  dsimp only
+  rw [hs.2, hs.1]
+  have hne : c.ro.steps.isEmpty = false := by cases hh : c.ro.steps <;> simp_all
+  rw [hne]
+  simp only [Bool.false_eq_true, if_false, hcur]
+  simp only [reduceCtorEq, if_false]
+  unfold startCursor
+  rw [hs.1, hcur]
+  simp only [reduceCtorEq, if_false]
+  rw [hs.2]
+  unfold finKnown
+  rw [hs.1, hcur]
+  simp only [Bool.not_true, Bool.false_eq_true, if_false]
+  unfold finTask
+  rw [hs.1, hcur]
+  simp only
+  have hw := removeBatchRelease_waits (stripAnno c).br
+  rw [hbr', hbr] at hw
+  rw [hbr', hw]
+  simp
+
+/-! non-vacuity of Part C: a mid-rollout world at a manual pause (with an illegal, user-patched next-step index that is
+    corrected in memory only) rests in class `userApprove`; the same world in `StepReady` does not rest -/
+example : roAwaits exampleWorld = some .userApprove := by decide
+example : roIllFormed exampleWorld = false := by decide
+example : roAwaits { exampleWorld with ro := { exampleRo with sub := some { exampleSub with state := .ready } } } = none := by decide
+
 end rollout
+
+/-! ## Part D — every waiting class waits for something that wakes the waiting object -/
+
+/-- **`waiting_class_is_wakeable` (Rollout)** — every class other than the terminal one awaits at least one kind of event, and every
+    event a class awaits reaches the Rollout reconciler.  No class is "nothing will ever happen". -/
+theorem ro_class_wakeable (c : RoWait) : (c = .terminated ∨ c.awaited ≠ []) ∧ ∀ e ∈ c.awaited, e.wakesRo = true := by
+  cases c <;> simp [RoWait.awaited, AEvent.wakesRo]
+
+/-- **`waiting_class_is_wakeable` (BatchRelease)** -/
+theorem br_class_wakeable (c : BrWait) : (c = .completed ∨ c.awaited ≠ []) ∧ ∀ e ∈ c.awaited, e.wakesBr = true := by
+  cases c <;> simp [BrWait.awaited, AEvent.wakesBr]
+
+/-- the concrete watch events an abstract event stands for, seen from Rollout `R` (namespace, name) whose BatchRelease has the
+    same name and whose workload is `wl`-shaped objects it alone names in the cache `rs` -/
+def RealizesRo (R : Obj) (rs : List Obj) : AEvent → RoEvent → Prop
+  | .roUpdated, .roUpdate ns name => ns = R.ns ∧ name = R.name
+  | .roDeleted, .roDelete ns name => ns = R.ns ∧ name = R.name
+  | .brCreated, .brCreate b => b.ns = R.ns ∧ b.name = R.name
+  | .brSpecUpdated, .brUpdate _ new | .brStatusUpdated _, .brUpdate _ new | .brMetaUpdated _, .brUpdate _ new => new.ns = R.ns ∧ new.name = R.name
+  | .brDeleteRequested, .brDelete b | .brGone, .brDelete b => b.ns = R.ns ∧ b.name = R.name
+  | .wlMetaUpdated, .wlUpdate _ new | .wlSpecUpdated, .wlUpdate _ new | .wlStatusUpdated, .wlUpdate _ new =>
+    new.ns = R.ns ∧ watchedType new.ty = true ∧ ∃ g, schemeKind new.ty = some g ∧ owners rs new.ns new.name g = [R]
+  | _, _ => False
+
+/-- **the abstract wake-up table is the handlers' table (Rollout)** — for every cache content: an abstract event that
+    `AEvent.wakesRo` says wakes the Rollout produces, through `roEnqueue`, exactly the request for that Rollout; one that it says
+    does not (BatchRelease created, deleted, gone) produces none. -/
+theorem aevent_ro_sound (R : Obj) (rs : List Obj) (e : AEvent) (re : RoEvent) (hr : RealizesRo R rs e re) :
+    roEnqueue re rs = if e.wakesRo then [R.key] else [] := by
+  cases e <;> cases re <;> simp only [RealizesRo] at hr <;>
+    first
+    | (obtain ⟨h1, h2⟩ := hr; simp [roEnqueue, AEvent.wakesRo, Obj.key, h1, h2]; done)
+    | skip
+  all_goals
+    obtain ⟨h1, hw, g, hg, ho⟩ := hr
+    rename_i old new
+    have := (ro_unique_owner_woken rs new g R hw hg ho old).1
+    simpa [AEvent.wakesRo] using this
+
+/-- the concrete watch events an abstract event stands for, seen from BatchRelease `B` whose workload carries the control
+    annotation naming it -/
+def RealizesBr (B : Key) : AEvent → BrEvent → Prop
+  | .brCreated, .brCreate b => b.ns = B.ns ∧ b.name = B.name
+  | .brSpecUpdated, .brUpdate old new => new.ns = B.ns ∧ new.name = B.name ∧ (old.generation ≠ new.generation ∨ old.annos ≠ new.annos)
+  | .brStatusUpdated d, .brUpdate old new | .brMetaUpdated d, .brUpdate old new =>
+    new.ns = B.ns ∧ new.name = B.name ∧ old.generation = new.generation ∧ old.annos = new.annos ∧ new.deleting = d
+  | .brDeleteRequested, .brUpdate _ new => new.ns = B.ns ∧ new.name = B.name ∧ new.deleting = true
+  | .brDeleteRequested, .brDelete b | .brGone, .brDelete b => b.ns = B.ns ∧ b.name = B.name
+  | .wlSpecUpdated, .wlUpdate old new =>
+    new.ns = B.ns ∧ controlledBy new.control = some B.name ∧ (switchKind new.ty).isSome ∧ new.rv ≠ old.rv ∧ old.generation ≠ new.generation ∧
+    (parseStatus old.ty old.status).isSome ∧ (parseStatus new.ty new.status).isSome
+  | .wlStatusUpdated, .wlUpdate old new =>
+    new.ns = B.ns ∧ controlledBy new.control = some B.name ∧ (switchKind new.ty).isSome ∧ new.rv ≠ old.rv ∧
+    (parseStatus old.ty old.status).isSome ∧ (parseStatus new.ty new.status).isSome ∧ parseStatus old.ty old.status ≠ parseStatus new.ty new.status
+  | .wlMetaUpdated, .wlUpdate old new =>
+    new.ns = B.ns ∧ old.generation = new.generation ∧ (parseStatus old.ty old.status).isSome ∧ parseStatus old.ty old.status = parseStatus new.ty new.status
+  | _, _ => False
+
+/-- **the abstract wake-up table is the handlers' table (BatchRelease)** — for every cache content (listable or not): an
+    abstract event that `AEvent.wakesBr` says wakes the BatchRelease produces, through `brEnqueue` (predicate + handlers), exactly
+    the request for it; a status-only or finalizer-only write of a live object and a metadata-only write of the workload
+    produce none. -/
+theorem aevent_br_sound (B : Key) (brs : List Obj) (store : List StoreObj) (listErr getErr : Bool) (e : AEvent) (be : BrEvent)
+    (hr : RealizesBr B e be) : brEnqueue be brs store listErr getErr = .keys (if e.wakesBr then [B] else []) := by
+  have keyB : ∀ ns name, ns = B.ns → name = B.name → (⟨ns, name⟩ : Key) = B := by
+    intro ns name h1 h2; subst h1 h2; rfl
+  cases e <;> cases be <;> simp only [RealizesBr] at hr
+  case brCreated.brCreate b => simp [brEnqueue, AEvent.wakesBr, keyB _ _ hr.1 hr.2]
+  case brSpecUpdated.brUpdate old new =>
+    obtain ⟨h1, h2, h3⟩ := hr
+    have : brPredUpdate old new = true := by
+      unfold brPredUpdate
+      rcases h3 with h3 | h3
+      · simp [h3]
+      · have : ¬ annosEq old.annos new.annos = true := fun he => h3 ((annosEq_iff _ _).mp he)
+        split
+        · rfl
+        · simp [this]
+    simp [brEnqueue, AEvent.wakesBr, this, keyB _ _ h1 h2]
+  case brStatusUpdated.brUpdate d old new =>
+    obtain ⟨h1, h2, h3, h4, h5⟩ := hr
+    have : brPredUpdate old new = d := by
+      unfold brPredUpdate
+      have ha : annosEq new.annos new.annos = true := (annosEq_iff _ _).mpr rfl
+      subst h5
+      cases hd : new.deleting <;> simp [h3, h4, ha]
+    simp only [brEnqueue, AEvent.wakesBr, this]
+    cases d <;> simp [keyB _ _ h1 h2]
+  case brMetaUpdated.brUpdate d old new =>
+    obtain ⟨h1, h2, h3, h4, h5⟩ := hr
+    have : brPredUpdate old new = d := by
+      unfold brPredUpdate
+      have ha : annosEq new.annos new.annos = true := (annosEq_iff _ _).mpr rfl
+      subst h5
+      cases hd : new.deleting <;> simp [h3, h4, ha]
+    simp only [brEnqueue, AEvent.wakesBr, this]
+    cases d <;> simp [keyB _ _ h1 h2]
+  case brDeleteRequested.brUpdate old new =>
+    obtain ⟨h1, h2, h3⟩ := hr
+    have : brPredUpdate old new = true := by unfold brPredUpdate; simp [h3]
+    simp [brEnqueue, AEvent.wakesBr, this, keyB _ _ h1 h2]
+  case brDeleteRequested.brDelete b => simp [brEnqueue, AEvent.wakesBr, keyB _ _ hr.1 hr.2]
+  case brGone.brDelete b => simp [brEnqueue, AEvent.wakesBr, keyB _ _ hr.1 hr.2]
+  case wlSpecUpdated.wlUpdate old new =>
+    obtain ⟨h1, h2, h3, h4, h5, h6, h7⟩ := hr
+    obtain ⟨g, hg⟩ := Option.isSome_iff_exists.mp h3
+    obtain ⟨so, hso⟩ := Option.isSome_iff_exists.mp h6
+    obtain ⟨sn, hsn⟩ := Option.isSome_iff_exists.mp h7
+    simp only [brEnqueue, brWorkloadUpdate, hg, if_neg h4, hso, hsn, if_pos (Or.inl h5 : old.generation ≠ new.generation ∨ so ≠ sn),
+      getBatchRelease_controlled brs listErr new.ns new.name g new.control B.name h2, Found.keys, UpdOut.toEnq, AEvent.wakesBr, if_true]
+    rw [keyB _ _ h1 rfl]
+  case wlStatusUpdated.wlUpdate old new =>
+    obtain ⟨h1, h2, h3, h4, h6, h7, h8⟩ := hr
+    obtain ⟨g, hg⟩ := Option.isSome_iff_exists.mp h3
+    obtain ⟨so, hso⟩ := Option.isSome_iff_exists.mp h6
+    obtain ⟨sn, hsn⟩ := Option.isSome_iff_exists.mp h7
+    have hne : so ≠ sn := by intro he; apply h8; rw [hso, hsn, he]
+    simp only [brEnqueue, brWorkloadUpdate, hg, if_neg h4, hso, hsn, if_pos (Or.inr hne : old.generation ≠ new.generation ∨ so ≠ sn),
+      getBatchRelease_controlled brs listErr new.ns new.name g new.control B.name h2, Found.keys, UpdOut.toEnq, AEvent.wakesBr, if_true]
+    rw [keyB _ _ h1 rfl]
+  case wlMetaUpdated.wlUpdate old new =>
+    obtain ⟨_, h2, h3, h4⟩ := hr
+    obtain ⟨so, hso⟩ := Option.isSome_iff_exists.mp h3
+    simp only [brEnqueue, brWorkloadUpdate, AEvent.wakesBr, Bool.false_eq_true, if_false]
+    split
+    · rfl
+    · split
+      · rfl
+      · rw [← h4, hso]
+        simp [h2, UpdOut.toEnq]
 
 end RV.Props.Wakeup
